@@ -82,6 +82,8 @@ func checkC05(w *World, r *Report) {
 	checkInterfaceKeys(w, r, reach)
 	checkDivisions(w, r, reach)
 	checkLengthPrefixes(w, r, "R05.6")
+	checkSizes(w, r)
+	checkLenMinus(w, r)
 
 	// R05.7
 	la := &lockAnalysis{w: w}
